@@ -63,6 +63,7 @@ type Opts struct {
 	Directives bool // print directives (noAutoescape, id, escapeHtml, truncate)
 	Autoescape bool // vary autoescape attributes
 	Astral     bool
+	MarkupDirs bool // also use changeNewlineToBr / insertWordBreaks
 	ErrPlants  bool // plant erroring sub-expressions in positions short-circuit never evaluates
 	LetShadow  bool
 	Globals    bool
@@ -560,6 +561,14 @@ func (g *G) printOf(e ref.Expr, t Ty) ref.Node {
 			p.Dirs = append(p.Dirs, ref.Dir{Name: "truncate", Args: []ref.Expr{lit(ref.Int(int64(g.R.Intn(9))))}})
 		case 4:
 			p.Dirs = append(p.Dirs, ref.Dir{Name: "truncate", Args: []ref.Expr{lit(ref.Int(int64(1 + g.R.Intn(9)))), lit(ref.Bool(g.R.Bool()))}})
+		case 5:
+			if g.O.MarkupDirs {
+				p.Dirs = append(p.Dirs, ref.Dir{Name: "changeNewlineToBr"})
+			}
+		case 6:
+			if g.O.MarkupDirs {
+				p.Dirs = append(p.Dirs, ref.Dir{Name: "insertWordBreaks", Args: []ref.Expr{lit(ref.Int(int64(1 + g.R.Intn(6))))}})
+			}
 		}
 	}
 	return p
